@@ -10341,7 +10341,7 @@ class TensorDictBase(MutableMapping):
         """
         if _is_tensor_collection(type(other)):
             keys, vals = self._items_list(True, True)
-            other_val = other._values_list(True, True, sorting_keys=keys)
+            _, other_val = other._items_list(True, True, sorting_keys=keys)
         else:
             vals = self._values_list(True, True)
             other_val = other
@@ -10616,7 +10616,7 @@ class TensorDictBase(MutableMapping):
         """
         if _is_tensor_collection(type(other)):
             keys, vals = self._items_list(True, True)
-            other_val = other._values_list(True, True, sorting_keys=keys)
+            _, other_val = other._items_list(True, True, sorting_keys=keys)
         else:
             vals = self._values_list(True, True)
             other_val = other
@@ -10635,7 +10635,7 @@ class TensorDictBase(MutableMapping):
         """
         if _is_tensor_collection(type(other)):
             keys, vals = self._items_list(True, True)
-            other_val = other._values_list(True, True, sorting_keys=keys)
+            _, other_val = other._items_list(True, True, sorting_keys=keys)
         else:
             vals = self._values_list(True, True)
             other_val = other
@@ -10709,7 +10709,7 @@ class TensorDictBase(MutableMapping):
         """
         if _is_tensor_collection(type(other)):
             keys, vals = self._items_list(True, True)
-            other_val = other._values_list(True, True, sorting_keys=keys)
+            _, other_val = other._items_list(True, True, sorting_keys=keys)
         else:
             vals = self._values_list(True, True)
             other_val = other
@@ -10778,7 +10778,7 @@ class TensorDictBase(MutableMapping):
         """
         if _is_tensor_collection(type(other)):
             keys, vals = self._items_list(True, True)
-            other_val = other._values_list(True, True, sorting_keys=keys)
+            _, other_val = other._items_list(True, True, sorting_keys=keys)
         else:
             vals = self._values_list(True, True)
             other_val = other
@@ -10847,7 +10847,7 @@ class TensorDictBase(MutableMapping):
         """
         if _is_tensor_collection(type(other)):
             keys, vals = self._items_list(True, True)
-            other_val = other._values_list(True, True, sorting_keys=keys)
+            _, other_val = other._items_list(True, True, sorting_keys=keys)
         else:
             vals = self._values_list(True, True)
             other_val = other
@@ -10932,7 +10932,7 @@ class TensorDictBase(MutableMapping):
         """
         if _is_tensor_collection(type(other)):
             keys, vals = self._items_list(True, True)
-            other_val = other._values_list(True, True, sorting_keys=keys)
+            _, other_val = other._items_list(True, True, sorting_keys=keys)
         else:
             vals = self._values_list(True, True)
             other_val = other
@@ -11083,7 +11083,7 @@ class TensorDictBase(MutableMapping):
         """
         if _is_tensor_collection(type(other)):
             keys, vals = self._items_list(True, True)
-            other_val = other._values_list(True, True, sorting_keys=keys)
+            _, other_val = other._items_list(True, True, sorting_keys=keys)
         else:
             vals = self._values_list(True, True)
             other_val = other
@@ -11157,7 +11157,7 @@ class TensorDictBase(MutableMapping):
         """
         if _is_tensor_collection(type(other)):
             keys, vals = self._items_list(True, True)
-            other_val = other._values_list(True, True, sorting_keys=keys)
+            _, other_val = other._items_list(True, True, sorting_keys=keys)
         else:
             vals = self._values_list(True, True)
             other_val = other
